@@ -9,6 +9,7 @@ import (
 	"fmt"
 	"os"
 	"path/filepath"
+	"runtime"
 	"sort"
 	"strconv"
 	"strings"
@@ -69,6 +70,24 @@ type Run struct {
 }
 
 // NewRun starts a run; tier and seed come from the command line / environment.
+// HostZone is the time zone every checker process runs in (time.Local).  The
+// repository's own tests run wherever the machine is - in this image UTC - so
+// the checks take a zone that is not UTC and has daylight-saving changes:
+// anything that lets the host's zone leak into results shows up.
+// VERIF_HOST_ZONE overrides it ("UTC" gives the image's own zone).
+var HostZone = "America/New_York"
+
+func init() {
+	if z := os.Getenv("VERIF_HOST_ZONE"); z != "" {
+		HostZone = z
+	}
+	if loc, err := time.LoadLocation(HostZone); err == nil {
+		time.Local = loc
+	} else {
+		HostZone = time.Local.String() + " (" + HostZone + " not available)"
+	}
+}
+
 func NewRun(property, tier string) *Run {
 	seed, _ := strconv.ParseInt(os.Getenv("VERIF_SEED"), 10, 64)
 	return &Run{Property: property, Tier: tier, Seed: seed, start: time.Now(),
@@ -221,6 +240,7 @@ func (r *Run) writeReplay(v *Violation) string {
 		"property": r.Property, "fingerprint": v.Fingerprint, "what": v.What,
 		"case": v.Case, "expected": v.Expected, "actual": v.Actual,
 		"replay_kind": v.ReplayKind, "tier": r.Tier,
+		"goarch": runtime.GOARCH, "host_time_zone": HostZone,
 	}
 	b, _ := json.MarshalIndent(doc, "", " ")
 	os.WriteFile(path, b, 0o644)
@@ -257,6 +277,8 @@ func (r *Run) writeEvidence(newViol int, knownSeen []string) {
 		"outcome_classes":               out,
 		"caps_hit":                      r.Caps,
 		"known_findings_reproduced":     knownSeen,
+		"host_time_zone":                HostZone,
+		"goarch":                        runtime.GOARCH,
 	}
 	for k, v := range r.Extra {
 		cov[k] = v
@@ -278,7 +300,11 @@ func (r *Run) writeEvidence(newViol int, knownSeen []string) {
 	b, _ := json.MarshalIndent(doc, "", " ")
 	dir := filepath.Join(Root(), "evidence")
 	os.MkdirAll(dir, 0o755)
-	os.WriteFile(filepath.Join(dir, r.Property+".json"), append(b, '\n'), 0o644)
+	name := r.Property
+	if n := os.Getenv("VERIF_EVIDENCE_NAME"); n != "" {
+		name = n // a second pass of the same check (another architecture) keeps its own file
+	}
+	os.WriteFile(filepath.Join(dir, name+".json"), append(b, '\n'), 0o644)
 }
 
 // Hex renders bytes for samples and replay files.
